@@ -330,9 +330,13 @@ class _Expr(ast.NodeTransformer):
     names = set()
     for gen in n.generators:
       names.update(_stored(gen.target))
+    # the OUTERMOST iterable is evaluated in the enclosing scope: the targets do not shadow the names it reads
+    first = self.visit(n.generators[0].iter)
+    n.generators[0].iter = ast.Constant(None)
     self.shadow.append(names)
     self.generic_visit(n)
     self.shadow.pop()
+    n.generators[0].iter = first
     return n
   visit_ListComp = visit_SetComp = visit_DictComp = visit_GeneratorExp = _comp
 
@@ -481,6 +485,9 @@ class _Instrumenter(object):
     elif isinstance(s, ast.FunctionDef):
       self.function(s, self.info_for(s, info))
       post = [self.w(sid, [s.name], info)]
+    elif isinstance(s, ast.Delete) and all(isinstance(t, (ast.Subscript, ast.Attribute)) for t in s.targets):
+      # deleting an element / attribute reads the owner (and the index) and writes no variable
+      s.targets = [E(t) for t in s.targets]
     else:
       raise Unsupported(type(s).__name__)
     core = [s]
